@@ -78,7 +78,9 @@ func (w *world) reportID() string {
 var worldSeq int64
 
 func uniqueID(prefix string) string {
-	return fmt.Sprintf("%s%d", prefix, atomic.AddInt64(&worldSeq, 1))
+	// the id is substituted textually when runs are compared, so it must not collide with stamps
+	// such as "e1", "r1", "v1"
+	return fmt.Sprintf("%sq%dq", prefix, atomic.AddInt64(&worldSeq, 1))
 }
 
 func (c worldCfg) compositeController(h *sim.HookSite) *v1alpha1.CompositeController {
@@ -289,20 +291,58 @@ func splitKey(key string) (string, string) {
 // syncKey runs pc.sync(key) once under the always-on monitors (M-PANIC, M-CACHE, M-OWN) and does
 // the worker's queue bookkeeping (the key must have been taken from the queue by the caller).
 func (w *world) syncKey(key string) *syncResult {
+	return w.observe(key, func() error { return w.pc.sync(key) })
+}
+
+// stepWorker lets the real worker code (processNextWorkItem: Get, sync, AddRateLimited/Forget,
+// Done) handle one queued key, under the same monitors. The error value is not visible; the
+// queue operations tell whether the sync failed.
+func (w *world) stepWorker() *syncResult {
+	if w.q.Len() == 0 {
+		return nil
+	}
+	n := w.syncN + 1
+	w.sim.SetTagFunc(func() string { return fmt.Sprintf("sync%d:%s", n, w.q.Current()) })
+	res := w.observe("", func() error {
+		w.pc.processNextWorkItem()
+		return nil
+	})
+	w.sim.SetTagFunc(nil)
+	res.Key = w.q.Current()
+	res.Tag = fmt.Sprintf("sync%d:%s", n, res.Key)
+	for _, op := range res.QueueOps {
+		if op.Op == "AddRateLimited" && op.Key == res.Key {
+			res.Err = fmt.Errorf("sync failed (key was re-queued rate-limited by the worker)")
+		}
+	}
+	return res
+}
+
+func (w *world) observe(key string, run func() error) *syncResult {
 	w.syncN++
 	res := &syncResult{N: w.syncN, Key: key, Tag: fmt.Sprintf("sync%d:%s", w.syncN, key)}
-	ns, name := splitKey(key)
-	if p, err := common.GetObject(w.pc.parentInformer, ns, name); err == nil {
-		res.Cached = p.DeepCopy()
-	}
 	var before map[string]env.Fingerprint
 	if !w.noMonitors {
 		before = w.env.SnapshotCaches()
 	}
 	mark, hmark, qmark := w.sim.Mark(), w.hooks.Mark(), w.q.Mark()
-	w.sim.SetTag(res.Tag)
-	stack, panicked := sim.Guard(func() { res.Err = w.pc.sync(key) })
+	lookup := func(key string) {
+		ns, name := splitKey(key)
+		if p, err := common.GetObject(w.pc.parentInformer, ns, name); err == nil {
+			res.Cached = p.DeepCopy()
+		}
+	}
+	if key != "" {
+		w.sim.SetTag(res.Tag)
+		lookup(key) // the cached parent the sync starts from
+	}
+	stack, panicked := sim.Guard(func() { res.Err = run() })
 	w.sim.SetTag("")
+	if key == "" {
+		key = w.q.Current()
+		res.Key = key
+		lookup(key)
+	}
 	res.Requests = w.sim.Since(mark)
 	res.Hooks = w.hooks.Since(hmark)
 	if panicked {
